@@ -3,3 +3,6 @@ NOTES = ("Every check is `./check <id>`: it rebuilds the harness from /repo's wo
          "theorems, audits axioms, runs the model/implementation correspondence and writes evidence/<id>.json. "
          "See DESIGN.md.")
 NOT_YET = {}
+
+# properties whose check has been reviewed by the lead and passes on the current tree
+READY = ["C15", "C19"]
